@@ -116,7 +116,8 @@ CONTRACTS.append(
     Contract(
         MJ + ":json_schema_property_to_param#optional-iff-not-required",
         src=MJ + ":json_schema_property_to_param",
-        block=lambda txt: txt.startswith("if name not in required and _param.get('typ')"),
+        # the `if` whose body is the wrapping assignment (selected by what it does, not by how its test is spelled)
+        block=lambda txt: txt.startswith("if ") and txt.rstrip().endswith("_param['typ'] = 'Optional[{}]'.format(_param['typ'])") and txt.count("\n") <= 2,
         params={"_param": {"typ": "str", "default?": "opaque", "doc?": "str"}, "name": "str", "required": "opaque"},
         ensures=[
             "implies(not (name in required) and old(field(_param, 'typ')) != '' and not contains(old(field(_param, 'typ')), 'Optional['),"
